@@ -33,7 +33,9 @@ for p in props:
                        m.get('coverage_verdict', ''))),
           'design_ref': 'DESIGN.md section 4, %s' % pid,
       },
-      'level_note': 'Decides necessary structural conditions, not the behavioural property as a whole. Not decided: ' +
+      'level_note': 'Decides necessary structural conditions, not the behavioural property as a whole. A VIOLATION is reported only on positive evidence '
+                    '(mechanism located in the tree under analysis and the required relation broken); code restructured beyond the fragment a rule recognises '
+                    'ends as ANALYSIS-INCONCLUSIVE (exit 2), never as a silent pass. Not decided: ' +
                     '; '.join(m.get('not_decided', ['value-level clauses'])) +
                     '. Trusted base: python ast, vf/cfg.py statement CFG (implicit exceptions only inside try), vf/model.py name resolution; '
                     'assumes no monkey-patching and documented behaviour of external libraries.',
@@ -52,10 +54,15 @@ man = {
     'engines': [{'name': 'vf', 'path': 'vf/', 'serves_properties': [c['property_id'] for c in checks],
                  'kind_free_text': 'pure-Python static analyser: ast source model with name/call resolution (vf/model.py), statement-level CFG with '
                                    'dominance / must-pass / exactly-once queries (vf/cfg.py), local type inference (vf/types.py), per-property rule '
-                                   'modules (vf/props), self-validation by in-memory source variants (vf/selftest.py)'}],
+                                   'modules (vf/props), evidence helpers: three-valued value flow, semantic guards, reachability under assumptions, located-anchor comparison '
+                                   '(vf/evid.py), rational-function normal form with a straight-line symbolic executor (vf/ratpoly.py), exact abstract interpreter of the '
+                                   'Linen filter algebra (vf/filteralg.py), alpha-normal digests and verdict reuse for alpha-equivalent code (vf/canon.py, vf/reference.py), '
+                                   'self-validation by in-memory source variants and replay of the stored seeded changes / refactorings (vf/selftest.py, vf/udiff.py)'}],
     'checks': checks,
     'notes': 'All checks parse /repo/flax on every run (no caching across runs) and never execute it. Exit 0 held / 1 VIOLATION / 2 ANALYSIS-ERROR. '
-             'Known findings: known_findings.json. fix: commits in /repo are listed there as status=fixed.',
+             'Known findings: known_findings.json. fix: commits in /repo are listed there as status=fixed. Stored corpus: seeded/ (80 confirmed breaking changes by '
+             'independent sub-agents, all reported) and benign/ (behaviour-preserving refactorings, none reported as VIOLATION); tools/regress.py, tools/noise.py, '
+             'tools/alpha_rename.py are the regression harnesses (see DESIGN.md section 10).',
     'not_applicable': na,
 }
 json.dump(man, open(os.path.join(V, 'MANIFEST.json'), 'w'), indent=1)
